@@ -15,6 +15,7 @@ from . import utils
 from .error import XLError
 from .utils import DEFAULT
 from ..helper.number import to_number
+from .operators import concat_text
 from .._compat import string_types
 
 
@@ -50,7 +51,7 @@ def CONCATENATE(*args):
         return arg
 
     try:
-        return ''.join((str(a) if not isinstance(test_arg(a), string_types) else a for a in utils.iflatten(args)))
+        return ''.join((concat_text(a) if not isinstance(test_arg(a), string_types) else a for a in utils.iflatten(args)))
     except XLError as xle:
         return xle
 
